@@ -100,7 +100,7 @@ Section RUN.
   Variable fp : labels -> N.
   Variable enc_len : labels -> Z.
   Variable CS : Type.
-  Variable cache_add : CS -> Z -> N -> CS * bool.
+  Variable cache_add : CS -> Z -> N -> N -> CS * bool.
   Variable threshold : Z.
   Variable ctx_ttl : N.
 
@@ -112,11 +112,12 @@ Section RUN.
     ch_ts c' = ch_ts c /\ ch_fp c' = ch_fp c /\ ch_msg c' = ch_msg c /\ ch_val c' = ch_val c /\
     ch_ttl c' = ch_ttl c /\ ch_type c' = ch_type c.
 
-  Lemma add_series_columns lbls f nt : forall days c cs, same_columns c (fst (add_series lbls f nt days c cs)).
+  Lemma add_series_columns lbls f types : forall days c cs, same_columns c (fst (add_series lbls f types days c cs)).
   Proof.
-    unfold add_series. induction days as [|d days IH]; intros c cs; cbn [fold_left].
+    intros days. unfold add_series. generalize (flat_map (fun d : Z => map (fun t : N => (d, t)) types) days).
+    induction l as [|dt l IH]; intros c cs; cbn [fold_left].
     - unfold same_columns; cbn; tauto.
-    - destruct (cache_add cs d f) as [cs' add]. destruct add.
+    - destruct (cache_add cs (fst dt) f (snd dt)) as [cs' add]. destruct add.
       + match goal with |- same_columns _ (fst (fold_left _ _ (?c1, _))) => specialize (IH c1 cs') end.
         unfold same_columns in *. cbn in IH. tauto.
       + apply IH.
@@ -418,7 +419,7 @@ Section DECODE.
   Variable fp : labels -> N.
   Variable enc_len : labels -> Z.
   Variable CS : Type.
-  Variable cache_add : CS -> Z -> N -> CS * bool.
+  Variable cache_add : CS -> Z -> N -> N -> CS * bool.
   Variable cache0 : CS.
   Variable threshold : Z.
   Variable flush_limit : N.
